@@ -44,6 +44,18 @@ def main(tier):
                                  labels=s["labels"], files=s["files"], sched=sch))
     shards = [jobs[i::8] for i in range(8)]
     build("s20")
+    # production constants (4096-byte caches, 128 KiB chunks): memory reads fill a cache at once, a one-byte source does not
+    pjobs = []
+    for si, s in enumerate(chosen[:4 if tier == "quick" else 20]):
+        for st in ("raw", "comp", "enc", "comp+enc"):
+            for sch in ([1], [3, 0, 2], [4095, 1]):
+                pjobs.append(dict(par=dict(stack=st, seed=seed() + 131 + si, level=5, entropy="low"),
+                                  labels=s["labels"], files=s["files"], sched=sch))
+    build("prod")
+    pp = os.path.join(wd, "archprod.jsonl")
+    write_jsonl(pp, pjobs)
+    mbt("prod", "transfer", os.devnull, pp, os.path.join(wd, "outprod.json"), timeout=7200)
+    oprod = json.load(open(os.path.join(wd, "outprod.json")))
 
     def one(i):
         ap = os.path.join(wd, f"arch{i}.jsonl")
@@ -56,6 +68,7 @@ def main(tier):
     with ThreadPoolExecutor(max_workers=8) as ex:
         outs = list(ex.map(one, range(8)))
     lay = outs[0]["layer"]
+    outs.append(oprod)
     for viol in lay["violations"]:
         v.violation(dict(check="transfer-layer", kind=viol["kind"]), dict(engine="transfer", detail=viol))
     if lay["drifts"]:
